@@ -44,6 +44,19 @@ def strReplace (pat w s : Str) : Str :=
   | [] => w ++ s.flatMap (fun c => c :: w)
   | p :: ps => replaceAll1 p ps w s
 
+/-- `str::replacen(p :: ps, w, 1)`: the leftmost occurrence only. -/
+def replaceFirst1 (p : Char) (ps w : Str) : Str → Str
+  | [] => []
+  | c :: cs =>
+    if c = p ∧ pre ps cs = true then w ++ cs.drop ps.length
+    else c :: replaceFirst1 p ps w cs
+
+/-- `str::replacen(pat, w, 1)` -/
+def strReplaceFirst (pat w s : Str) : Str :=
+  match pat with
+  | [] => w ++ s
+  | p :: ps => replaceFirst1 p ps w s
+
 /-- `str::contains(p :: ps)` -/
 def containsSub1 (p : Char) (ps : Str) : Str → Bool
   | [] => false
@@ -97,7 +110,8 @@ deriving Repr, DecidableEq
 def buildStep (b : Build) (m : Str × Str) : Build :=
   if containsSub (fmt m.1) b.regex then
     { regex := strReplace (fmt m.1) (groupRegex m.2) b.regex
-      capture := strReplace (fmt m.1) (groupCapture m.1 m.2) b.capture
+      -- a group name can be declared only once: the first occurrence captures, the next ones only match
+      capture := strReplace (fmt m.1) (groupRegex m.2) (strReplaceFirst (fmt m.1) (groupCapture m.1 m.2) b.capture)
       used := b.used ++ [m.1] }
   else b
 
@@ -244,14 +258,19 @@ def Tok.regex : Tok → Str
   | .lit c => escChar c
   | .grp _ re => groupRegex re
 
-def Tok.capture : Tok → Str
-  | .lit c => escChar c
-  | .grp n re => groupCapture n re
-
 /-- The matching regex of a token list: escaped literals, `(?:re)` groups. -/
 def renderRegex (ts : List Tok) : Str := ts.flatMap Tok.regex
-/-- The capturing regex of a token list: escaped literals, `(?P<name>re)` groups. -/
-def renderCapture (ts : List Tok) : Str := ts.flatMap Tok.capture
+
+/-- The capturing regex of a token list, `seen` = names already declared: escaped literals, `(?P<name>re)` for
+the FIRST group of a name, `(?:re)` for the following ones. -/
+def renderCaptureAux : List Str → List Tok → Str
+  | _, [] => []
+  | seen, .lit c :: ts => escChar c ++ renderCaptureAux seen ts
+  | seen, .grp n re :: ts =>
+    if n ∈ seen then groupRegex re ++ renderCaptureAux seen ts
+    else groupCapture n re ++ renderCaptureAux (n :: seen) ts
+
+def renderCapture (ts : List Tok) : Str := renderCaptureAux [] ts
 
 /-- Marker names are plain: no regex meta character and no `@` (so escaping leaves `@name` intact). -/
 def plainName (n : Str) : Bool := n.all fun c => !isMeta c && c != '@'
